@@ -39,9 +39,15 @@ impl Token<'_> {
     }
 }
 
+/// The parser (and the compiler after it) is recursive: input that is nested deeper than this
+/// is rejected instead of exhausting the native stack.
+const MAX_NESTING_DEPTH: usize = 500;
+
 struct Parser<'a> {
     tokenizer: Tokenizer<'a>,
     current_token: Token<'a>,
+    /// Current nesting depth of expressions and blocks
+    depth: usize,
 }
 
 impl<'a> Parser<'a> {
@@ -52,6 +58,7 @@ impl<'a> Parser<'a> {
         Parser {
             tokenizer,
             current_token,
+            depth: 0,
         }
     }
 
@@ -87,9 +94,27 @@ impl<'a> Parser<'a> {
         Operator::from(self.current_token)
     }
 
+    /// Keeps track of how deep we are nested
+    fn enter_nested(&mut self) -> Result<(), ParseError> {
+        self.depth += 1;
+        if self.depth > MAX_NESTING_DEPTH {
+            return Err(ParseError::SyntaxError(
+                "programma is te diep genest".to_string(),
+            ));
+        }
+        Ok(())
+    }
+
     /// Parse an expression
     #[inline]
     fn parse_expr(&mut self, precedence: Precedence) -> Result<Expr, ParseError> {
+        self.enter_nested()?;
+        let result = self.parse_nested_expr(precedence);
+        self.depth -= 1;
+        result
+    }
+
+    fn parse_nested_expr(&mut self, precedence: Precedence) -> Result<Expr, ParseError> {
         let mut left = match self.current_token {
             Token::Int(s) => self.parse_int_expression(s)?,
             Token::Float(s) => self.parse_float_expression(s),
@@ -117,7 +142,11 @@ impl<'a> Parser<'a> {
         };
 
         // keep going
+        let mut chain = 0;
         while self.current_token != Token::Semi && precedence < self.current_token.precedence() {
+            // every operator applied to what we have so far makes the tree one level deeper
+            self.enter_nested()?;
+            chain += 1;
             left = match self.current_token {
                 Token::Lt
                 | Token::Lte
@@ -135,10 +164,11 @@ impl<'a> Parser<'a> {
                 Token::Assign => self.parse_assign_expr(left)?,
                 Token::OpenParen => self.parse_call_expr(left)?,
                 Token::OpenBracket => self.parse_index_expr(left)?,
-                _ => return Ok(left),
+                _ => break,
             };
         }
 
+        self.depth -= chain;
         Ok(left)
     }
 
@@ -477,11 +507,13 @@ impl<'a> Parser<'a> {
     fn parse_block_statement(&mut self) -> Result<BlockStmt, ParseError> {
         let mut block = BlockStmt::with_capacity(8);
         self.skip(Token::OpenBrace)?;
+        self.enter_nested()?;
 
         while self.current_token != Token::Illegal && self.current_token != Token::CloseBrace {
             block.push(self.parse_statement()?);
         }
 
+        self.depth -= 1;
         self.skip(Token::CloseBrace)?;
         Ok(block)
     }
